@@ -132,7 +132,10 @@ REF_EXPANSION = {
     ('/', 'Model', 'Term'): [('-', '{TERM(allcomps(SELF) ++ comps(OTHER)); e | e in ALL(SELF)}')],
     ('/', 'Model', 'Model'): [('-', '{TERM(allcomps(SELF) ++ c) | c in CC(OTHER); e | e in ALL(SELF)}')],
     ('**', 'Term', 'Term'): [('n is a positive integer', 'SELF'), ('n is not a positive integer', 'NotImplemented')],
-    ('**', 'Model', 'Term'): [('OTHER is a single component & n is a positive integer', '{TERM(comps(each of combo)) | combo in combinations(CT(SELF), k), k in range(2, n + 1); e | e in ALL(SELF)}')],
+    # an exponent that is not a positive integer is refused (today by reading the local `comb` that no statement bound: an
+    # UnboundLocalError - any exception will do, an accepted formula that ignores its exponent will not)
+    ('**', 'Model', 'Term'): [('OTHER is a single component & n is a positive integer', '{TERM(comps(each of combo)) | combo in combinations(CT(SELF), k), k in range(2, n + 1); e | e in ALL(SELF)}'),
+                              ('OTHER is a single component & n is not a positive integer', 'raise *')],
     ('|', 'Intercept', 'Term'): [('-', 'GST(I, OTHER)')],
     ('|', 'Intercept', 'Model'): [('-', '{GST(I, p1) | p1 in CT(OTHER)}')],
     ('|', 'Term', 'Term'): [('-', '{GST(I, OTHER); GST(SELF, OTHER)}')],
@@ -164,7 +167,9 @@ def run(prog, rep, tier):
     r2_4(prog, rep)
     r2_5(prog, rep)
     r2_6(prog, rep)
+    r2_7(prog, rep)
     rep.floor("R2.6", len(REF_EXPANSION))
+    rep.floor("R2.7", 2)
     rep.floor("R2.1", 40)
     rep.floor("R2.2", len(REQUIRED))
     rep.floor("R2.3", 12)
@@ -710,6 +715,20 @@ def _alpha_gens(text):
     return re.sub(r"\{([^{}]*)\}", block, text)
 
 
+def r2_7(prog, rep):
+    """the algebra of R2.6 is over the values the overloads return: the resolver must hand the value of a parenthesised
+    sub-expression to the enclosing operator untouched (the intercept marker of `(0 + x | g)` has to reach `|`).  C01's R1.10."""
+    from . import C01
+    from ..core import reuse_rule
+
+    class _Ctx:
+        pass
+
+    ctx = _Ctx()
+    ctx.prog = prog
+    reuse_rule(rep, C01.r1_10, "R2.7", ctx)
+
+
 def r2_6(prog, rep):
     """expansion semantics: abstract interpretation of every overload in the term-set domain vs. the documented algebra"""
     from ..algebra import Summariser
@@ -734,6 +753,9 @@ def r2_6(prog, rep):
             continue
         got = sorted({(" & ".join(c) or "-", _alpha_gens(S.normal(v))) for c, v in outs})
         want = sorted((c, _alpha_gens(v)) for c, v in want)
+        # `raise *`: any exception is the documented outcome of that case
+        wild = {c for c, v in want if v == "raise *"}
+        got = sorted({(c, "raise *" if c in wild and v.startswith("raise ") else v) for c, v in got})
         if got == want:
             rep.ok("R2.6", where, fnq, construct, "; ".join(f"[{c}] {v}" for c, v in got))
         else:
